@@ -210,6 +210,25 @@ func runGrammar(c *ShardCtx, g *peg.Grammar, f *family) {
 					// a second call in the same process (no cold start in between) returns the same:
 					// every 5th case, and never for runs that did not return
 					c.Res.warmSeen++
+					if c.Res.warmSeen%20 == 3 && len(in) > 0 && !obs.Diverged && len(obs.Pool) == 0 {
+						// ... and the call returns the same after a call on an INCOMPLETE version of its
+						// input (the input without its last byte; every 4th time the empty input): what a
+						// parse leaves behind at its end of input must not answer for a longer one
+						pre := in[:len(in)-1]
+						if c.Res.warmSeen%80 == 3 {
+							pre = nil
+						}
+						o2, o3 := o, o
+						first := b.Run(pre, &o2, script)
+						if !first.Diverged {
+							again := b.RunWarm(in, &o3, script)
+							c.Res.Counters["second_call_runs"]++
+							if k1, k2 := warmKey(obs), warmKey(again); k1 != k2 && !again.Diverged {
+								c.Report(Violation{Desc: fmt.Sprintf("a Parse call made after a call on the shorter input %q returns something else: %s (alone: %s)", pre, k2, k1), Grammar: text, Gen: gen.String(), Input: string(in),
+									InputHex: hexOf(in), Opts: optsString(&o) + " " + scriptString(script) + fmt.Sprintf(" (after Parse(%q) with the same options)", pre)}, "")
+							}
+						}
+					}
 					if c.Res.warmSeen%5 == 0 && !obs.Diverged && len(obs.Pool) == 0 {
 						if c.Res.warmSeen%10 == 0 && len(f.inputs) > 1 {
 							// ... and a call on ANOTHER input with the same option VALUES (a caller keeping
@@ -360,4 +379,43 @@ func hasFFFDLit(g *peg.Grammar) bool {
 		})
 	}
 	return found
+}
+
+// hcall is one Parse call of a history.
+type hcall struct {
+	in     string
+	o      rtapi.RunOpts
+	script map[int]*rtapi.Block
+	note   string
+}
+
+// historyPairs runs EVERY ordered pair of the calls in one process (the first after a cold
+// start, the second right after it) and requires the second call to return exactly what it
+// returns as the first call of a process.
+func historyPairs(c *ShardCtx, b *core.Built, text string, gen core.Gen, calls []hcall) {
+	key := func(o *rtapi.Obs) string {
+		return fmt.Sprintf("val=%s errs=%v panic=%q diverged=%v", o.Val, msgs(o), o.Panic, o.Diverged)
+	}
+	desc := func(cl hcall) string {
+		return fmt.Sprintf("Parse(%q, %s%s)", cl.in, optsString(&cl.o), cl.note)
+	}
+	solo := make([]string, len(calls))
+	for i, cl := range calls {
+		o := cl.o
+		solo[i] = key(b.Run([]byte(cl.in), &o, cl.script))
+	}
+	for i := range calls {
+		for j := range calls {
+			oi, oj := calls[i].o, calls[j].o
+			b.Run([]byte(calls[i].in), &oi, calls[i].script)
+			got := key(b.RunWarm([]byte(calls[j].in), &oj, calls[j].script))
+			c.Res.Evaluations++
+			c.Res.Nontrivial++
+			c.Res.Counters["history_pairs"]++
+			if got != solo[j] {
+				c.Report(Violation{Desc: fmt.Sprintf("%s after %s returns %s; as the first call of a process it returns %s", desc(calls[j]), desc(calls[i]), got, solo[j]),
+					Grammar: text, Gen: gen.String(), Input: calls[j].in, InputHex: hexOf([]byte(calls[j].in)), Opts: desc(calls[j]) + " after " + desc(calls[i])}, "")
+			}
+		}
+	}
 }
